@@ -116,6 +116,32 @@ def check_sine_reuse(rname, iname, res=None):
     return out
 
 
+def check_sine_refined(rname, iname, res=None):
+    """the same study on two-zone refined meshes whose cell count does not split evenly between the zones (odd n, default 1:1 zones; 1:2 zones
+    with n not a multiple of 3): one wave per domain, period = the length given to the constructor"""
+    out = []
+    p = design_order(rname)
+    for ns, (za, zb) in (((41, 81, 161), (1, 1)), ((40, 80, 160), (1, 2))):
+        errs = []
+        for n in ns:
+            mesh = space.mesh1.refinedmesh(ncell=n, length=1.0, ratio=2.0, nratioa=za, nratiob=zb)
+            model = space.convection.model(1.0)
+            disc = space.modeldisc.fvm(model, mesh, space._recon(rname))
+            f = space.field.fdata(model, mesh, [cellavg_sin(np.asarray(mesh.xf, float), 1, 0.7, 0.0)])
+            with np.errstate(all="ignore"), core.time_limit(120.0):
+                g = space.integrators()[iname](mesh, disc).solve(f, 0.2, [0.3])[-1]
+            errs.append(float(np.mean(np.abs(g.data[0] - cellavg_sin(np.asarray(mesh.xf, float), 1, 0.7, 0.3)))))
+        order = np.log2(errs[-2] / errs[-1]) if errs[-1] > 0 else np.inf
+        lo = min(1.5, p - 0.3)
+        if res is not None:
+            res.evals += len(ns)
+            res.worst("sine-order-shortfall/refined-mesh", p - order)
+        if not (np.all(np.isfinite(errs)) and order >= lo):
+            out.append(("C04/sine/%s/refined-mesh-uneven-split/order-too-low" % rname.replace(":", "-"), "%s %s on refinedmesh(n, ratio 2, zones %d:%d): L1 errors %r on n=%r, observed order %.2f < %.2f" % (
+                rname, iname, za, zb, errs, list(ns), order, lo)))
+    return out
+
+
 def check_sine(rname, iname, k, phi, a, levels, res=None):
     ns = [32 * k * m for m in levels]
     errs = [sine_error(rname, iname, k, phi, a, n) for n in ns]
@@ -346,6 +372,10 @@ def shard_sine(arg):
         res.nontrivial += 1
         for s, w in check_sine_reuse(rname, iname, res):
             res.violation(s, w, {"kind": "sine-reuse", "recon": rname, "integrator": iname})
+        if rname != "extrapol1" and design_order(rname) == 2:
+            res.nontrivial += 1
+            for s, w in check_sine_refined(rname, iname, res):
+                res.violation(s, w, {"kind": "sine-refined", "recon": rname, "integrator": iname})
     res.sample({"recon": rname, "integrator": iname, "k": 2, "phi": 0.7, "a": -0.5, "n_ladder": [64 * m for m in levels]}, cap=1)
     return res
 
@@ -394,6 +424,8 @@ def run(ctx):
 
 
 def replay(case):
+    if case.get("kind") == "sine-refined":
+        return check_sine_refined(case["recon"], case["integrator"])
     if case.get("kind") == "sine-reuse":
         return check_sine_reuse(case["recon"], case["integrator"])
     k = case["kind"]
